@@ -80,17 +80,16 @@ type heapOpts struct {
 	fixParent  bool // counterfactual run
 }
 
-
 type heapStats struct {
-	maxLen        int
-	interior      int // Remove(i) with 0 < i < Len-1
-	evenPushUps   int64
-	parentCalls   int64
-	oddParents    int64
-	posChecks     int
-	removeByPos   int
-	reorders      int
-	drains        int
+	maxLen      int
+	interior    int // Remove(i) with 0 < i < Len-1
+	evenPushUps int64
+	parentCalls int64
+	oddParents  int64
+	posChecks   int
+	removeByPos int
+	reorders    int
+	drains      int
 }
 
 // heapRun executes ops and returns the first divergence, if any.
@@ -106,10 +105,10 @@ func heapRun(c *fw.Ctx, ops []hop, opt heapOpts) (div *heapDiv, st heapStats) {
 
 	dir := 0
 	cmp := heapCmp(dir)
-	pos := map[int]int{}       // tag -> last reported position
-	tracked := map[int]bool{}  // tags that entered through Add or Set
-	var order []int            // held tags in insertion order (for op 'T')
-	ref := map[int]Elem{}      // tag -> element held
+	pos := map[int]int{}      // tag -> last reported position
+	tracked := map[int]bool{} // tags that entered through Add or Set
+	var order []int           // held tags in insertion order (for op 'T')
+	ref := map[int]Elem{}     // tag -> element held
 	tag := 0
 	update := func(e Elem, p int) { pos[e.Tag] = p }
 	q := heapq.New(func(a, b Elem) int { return cmp(a, b) })
